@@ -144,7 +144,11 @@ func (r *ring) removeHost(hostID string) bool {
 				break
 			}
 		}
-		delete(r.hostIPToUUID, h.nodeToNodeAddress().String())
+		// the address may meanwhile belong to another host (a node replaced by a
+		// new one with the same address), do not drop that host's entry
+		if addr := h.nodeToNodeAddress().String(); r.hostIPToUUID[addr] == hostID {
+			delete(r.hostIPToUUID, addr)
+		}
 	}
 	delete(r.hosts, hostID)
 	r.mu.Unlock()
